@@ -103,6 +103,7 @@ def cases(tier, rng):
         for m in ms:
             for s in ss:
                 yield case_line('t.hms', h, m, s)
+                yield case_line('t.phms', h, m, s)
     subs = {
         't.hms_milli': [0, 1, 999, 1000, 1001, 1999, 2000, 2001, 4294, 4295, U32_MAX, 2147, 2148],
         't.hms_micro': [0, 1, 999999, 1000000, 1000001, 1999999, 2000000, 2000001, 4294967, 4294968, U32_MAX],
@@ -114,9 +115,11 @@ def cases(tier, rng):
                 for s in (0, 58, 59, 60):
                     for x in xs:
                         yield case_line(op, h, m, s, x)
+                        yield case_line(op.replace('t.hms', 't.phms'), h, m, s, x)
     for s in around([0, 59, 60, 119, 3599, 3600, 86339, 86399, 86400, 86459, U32_MAX], lo=0, hi=U32_MAX):
         for n in [0, 1, G - 1, G, G + 1, 2 * G - 1, 2 * G, 2 * G + 1, U32_MAX]:
             yield case_line('t.nsfm', s, n)
+            yield case_line('t.pnsfm', s, n)
     # ---- accessors and replacement
     for t in times:
         yield case_line('t.acc', t)
@@ -125,6 +128,15 @@ def cases(tier, rng):
                 yield case_line(op, t, v)
     for h in range(24):
         yield case_line('t.acc', [h * 3600 + 1234 % 3600, 5])
+        yield case_line('ndt.tacc', [2024, 60, h * 3600 + 1234 % 3600, 5])
+    # the same through impl Timelike for NaiveDateTime (dates: range ends, a leap day, year ends)
+    ndates = [[-262143, 1], [262142, 365], [2024, 60], [2023, 365], [1970, 1], [0, 366]]
+    for i, t in enumerate(times):
+        d = ndates[i % len(ndates)]
+        yield case_line('ndt.tacc', d + t)
+        for v in FIELD[::2] + FIELD[-1:]:
+            for which in range(4):
+                yield case_line('ndt.twith', which, d + t, v)
     # ---- addition / subtraction of durations
     for t in times:
         durs = [td_of_ns(n) for n in dur_lattice(t[1])] + [[MAXS, MAXN], [MINS, MINN], [MAXS, 0], [MINS + 1, 0],
@@ -207,8 +219,15 @@ def cases(tier, rng):
             op = rng.choice(['t.with_hour', 't.with_minute', 't.with_second', 't.with_nano'])
             v = rng.choice([rng.randint(0, 70), rng.randint(0, 70), rng.randint(0, 2 * G + 10), rng.randint(0, U32_MAX)])
             yield case_line(op, t, v)
-        elif r < 0.92:
+        elif r < 0.9:
             yield case_line('t.acc', t)
+        elif r < 0.92:
+            d = rng.choice([[-262143, 1], [262142, 365], [2024, 60], [rng.randint(-262143, 262142), rng.randint(1, 365)]])
+            if rng.random() < 0.3:
+                yield case_line('ndt.tacc', d + t)
+            else:
+                v = rng.choice([rng.randint(0, 70), rng.randint(0, 70), rng.randint(0, 2 * G + 10), rng.randint(0, U32_MAX)])
+                yield case_line('ndt.twith', rng.randint(0, 3), d + t, v)
         elif r < 0.96:
             op = rng.choice(['t.hms_milli', 't.hms_micro', 't.hms_nano'])
             scale = {'t.hms_milli': 10**6, 't.hms_micro': 10**3, 't.hms_nano': 1}[op]
